@@ -303,7 +303,11 @@ EXTRA_NOTES = {
            "denoting the current backing word (RISC-V and TOY; the TOY pc row shows the address of the NEXT fetch).",
     "C19": " Props/C19Lex.v + Model/ToyLex.v: the TOY tokenizer is inside the model (domain: every Python string) — layout, comments, mnemonic case and number "
            "bases do not change the token lines (proved), and load_program(text) is compared with the model's lexer+assembler on the same text (requests 90/91).",
-    "C15": " Props/C15ToyText.v: for EVERY text the model's TOY lexer + assembler either succeeds or yields one of five line-carrying parser errors or the size error "
+    "C14": " Props/C14Lex.v closes the loop through the modelled grammar: lex_of_printed (the lexer reads every printed instruction back as its own tokens, any immediate), "
+           "print_lex_assemble (rv_load_text of a printed listing, after any comment/blank lines, yields exactly that listing at the same addresses).",
+    "C15": " Props/C15RvText.v: for EVERY list of source lines the model's RISC-V lexer + assembler yields no error, one of the line-carrying parser errors with 1 <= line <= "
+           "number of lines naming the offending line (three-way split of syntax errors: lexical, rejected literal, misplaced declaration/directive), MemorySize or MemoryAddress; "
+           "'uncaught' is never produced; a failed load leaves the reset state. Props/C15ToyText.v: for EVERY text the model's TOY lexer + assembler either succeeds or yields one of five line-carrying parser errors or the size error "
            "(the 'uncaught' constructor is proved impossible), the reported line number lies in 1..number of lines and names the offending line, and a failed load "
            "leaves the fresh state. For TOY the typed outcome is compared on ARBITRARY text with the model's own lexer + assembler (Model/ToyLex.v), not only on texts the real tokenizer accepts.",
 }
